@@ -2,8 +2,10 @@ package main
 
 import (
 	"bytes"
+	"crypto/sha1"
 	"compress/flate"
 	"encoding/base64"
+	"fmt"
 	"io"
 	"strings"
 
@@ -82,23 +84,64 @@ func c43RandScript(r *Rng) (string, string) {
 
 func c43Gen(r *Rng, tier string, n int) []Case {
 	var out []Case
-	add := func(s, class string) {
+	// coqS: optional compact Coq term denoting s (run-length form for big compressible scripts)
+	addT := func(s, class, coqS string) {
 		d := c43Deflate(s)
 		enc, err := urlenc.Encode(s)
 		c := Case{Class: class, Nontrivial: len(s) >= 3, Key: s}
+		if len(s) > 200 {
+			c.Key = fmt.Sprintf("%d:%x", len(s), sha1.Sum([]byte(s)))
+		}
 		if err != nil {
 			c.ImplFail = append(c.ImplFail, "Encode returned error: "+err.Error())
 		}
 		dec, derr := urlenc.Decode(enc)
-		c.Coq = "CEnc " + coqBytes(s) + " " + coqBytes(string(d)) + " " + coqBytes(enc) + " " +
-			coqOpt(derr == nil, coqBytes(dec)) + " " + coqBool(c43InflateOK(d, s))
-		c.Input = map[string]any{"script_bytes": []byte(s)}
-		c.Impl = map[string]any{"encoded": enc, "decoded_ok": derr == nil, "decoded_equal": dec == s}
+		sTerm := coqBytes(s)
+		if coqS != "" {
+			sTerm = coqS
+		}
+		decTerm := coqBytes(dec)
+		if dec == s {
+			decTerm = sTerm
+		} else if len(dec) > 4000 && len(s) > 4000 {
+			// transport limit: a differing big output is passed as its first 4000 bytes (still differs
+			// from s, whose length is > 4000); the real length is in Impl.decoded_len
+			decTerm = coqBytes(dec[:4000])
+		}
+		c.Coq = "CEnc " + sTerm + " " + coqBytes(string(d)) + " " + coqBytes(enc) + " " +
+			coqOpt(derr == nil, decTerm) + " " + coqBool(c43InflateOK(d, s))
+		if len(s) <= 64 {
+			c.Input = map[string]any{"script": s, "len": len(s)}
+		} else {
+			c.Input = map[string]any{"script_prefix": s[:48], "len": len(s), "coq_term": coqS}
+		}
+		c.Impl = map[string]any{"encoded_len": len(enc), "decoded_ok": derr == nil, "decoded_len": len(dec), "decoded_equal": dec == s}
 		out = append(out, c)
+	}
+	add := func(s, class string) { addT(s, class, "") }
+	// big, highly compressible scripts (kilobytes to 100s of KiB): s = pat repeated k times, passed to
+	// Coq in run-length form so the predicate Decode(Encode s) = s is still evaluated there
+	addRep := func(pat string, k int, class string) {
+		addT(strings.Repeat(pat, k), class, fmt.Sprintf("(rep %s %d)", coqBytes(pat), k))
 	}
 	// corpus first: sizes around the 3-byte quantum of the DEFLATE output
 	for _, s := range []string{"", "x", "xy", "xyz", "x -> y", "\xff", "\x00\x00\x00", "a: {b: {c}}\n", strings.Repeat("a", 1000)} {
 		add(s, "corpus")
+	}
+	for _, k := range []int{600, 4096, 20000, 300000} {
+		addRep("a", k, "big-runs")
+	}
+	addRep("x -> y\n", 2400, "big-runs")
+	addRep("shape: circle\n", 9000, "big-runs")
+	pats := []string{"a", "ab", "x -> y\n", "\x00", "\xff\xfe", "é", "{}\n", "0123456789abcdef"}
+	nBig := 6
+	if tier == "thorough" {
+		nBig = 60
+	}
+	for i := 0; i < nBig; i++ {
+		p := pats[r.Intn(len(pats))]
+		total := []int{2100, 5000, 17000, 66000, 140000}[r.Intn(5)] + r.Intn(999)
+		addRep(p, total/len(p)+1, "big-runs")
 	}
 	nEnc := n * 3 / 4
 	for i := 0; i < nEnc; i++ {
